@@ -38,9 +38,14 @@ class ImportConverter:
 
             ast_module, module_name = module.module, module.name
 
-            if hasattr(ast_module, "body"):
+            if not isinstance(ast_module, (ast.Import, ast.ImportFrom)):
+                # descend into every child node: imports can be nested in any statement list
+                # (else / elif / except / finally branches, loop else, match cases, ...)
                 module_to_search.extend(
-                    [NamedModule(m, module_name) for m in ast_module.body]  # type: ignore
+                    [
+                        NamedModule(m, module_name)  # type: ignore
+                        for m in ast.iter_child_nodes(ast_module)
+                    ]
                 )
             else:
                 new_imports = self._convert(
